@@ -62,7 +62,7 @@ func init() {
 				fmt.Fprintf(w, ";")
 			}
 			n++
-			fmt.Fprintf(w, "\n  (%s, %s, mk_slit %s %s %s)", c18Str(l.Key()), c18Str(l.Func), c18Form(l.CtxForm), c18Bool(l.NewDB == "true" || l.NewDB == "expr"), c18Bool(l.Init))
+			fmt.Fprintf(w, "\n  (%s, %s, mk_slit %s %s %s %s)", c18Str(l.Key()), c18Str(l.Func), c18Form(l.CtxForm), c18Bool(l.NewDB == "true" || l.NewDB == "expr"), c18Bool(l.Init), c18Bool(l.Own()))
 		}
 		fmt.Fprintf(w, "].\n")
 		// Statement literals: (key, func, sets ConnPool, context form)
